@@ -198,6 +198,87 @@ def rx_case(bufsz, stream, cuts='-', faults='-', maxbytes=10 ** 9, wf=0, chunks=
     return 'rx %d %d %s %s %s %s' % (bufsz, maxbytes, faults, hexs(stream), cuts, meta)
 
 
+def rx_seq_case(bufsz, stream, completed, cuts='-', faults='-', maxbytes=10 ** 9):
+    """a connection with several transactions; `completed`: chunk lists of the transactions that must be queued"""
+    meta = 'wf=3:' + ('/'.join(','.join(hexs(c) for c in t) if t else '-' for t in completed) if completed else 'none')
+    return 'rx %d %d %s %s %s %s' % (bufsz, maxbytes, faults, hexs(stream), cuts, meta)
+
+
+def bdat_cmds(chunks, last, verb=b'BDAT'):
+    """the commands of one transfer; last=True: the final chunk carries LAST"""
+    s = bytearray()
+    for i, c in enumerate(chunks):
+        s += verb + b' ' + str(len(c)).encode() + (b' LAST' if last and i == len(chunks) - 1 else b'') + b'\r\n' + c
+    return bytes(s)
+
+
+NEWTX = b'MAIL FROM:<>\r\nRCPT TO:<a@example.net>\r\n'
+
+
+def gen_rx_sequences(ctx, tiny, normal):
+    """SEQUENCES of BDAT transactions on one connection: a first transfer that is completed, or abandoned by
+    RSET, or failed (too big) and then reset, or interrupted by a syntax error and continued - followed by a fresh
+    one. Nothing of the first (lastcr, bdaterr, msgsize, comstate) may show in the hand-off of the second."""
+    rng, quick = ctx.rng, ctx.quick()
+    by = {}
+
+    def add(bufsz, c, tag):
+        by.setdefault(bufsz, []).append(c)
+        ctx.count('rxseq:' + tag)
+
+    def cutsfor(stream):
+        return rng.choice(['-', '-', ','.join(['1'] * len(stream)), ','.join(str(rng.randrange(1, 7)) for _ in range(len(stream)))])
+    firsts = list(all_msgs(3)) if quick else list(all_msgs(4))
+    seconds = [b'', b'a', b'\n', b'\r', b'\na', b'a\r\n', b'\r\n', b'ab']
+    for bufsz in tiny[:2] + normal[:1]:
+        for d1 in firsts:
+            comps = list(compositions(len(d1))) or [[]]
+            for parts in comps:
+                c1 = split(d1, parts) or [b'']
+                for d2 in (seconds if not quick else rng.sample(seconds, 4)):
+                    c2 = [d2] if len(d2) < 2 or rng.random() < 0.5 else [d2[:1], d2[1:]]
+                    if rng.random() < 0.3:
+                        c2 = c2 + [b'']
+                    t2 = NEWTX + bdat_cmds(c2, True)
+                    # (1) abandoned by RSET in the middle of the transfer
+                    st = bdat_cmds(c1, False) + b'RSET\r\n' + t2
+                    add(bufsz, rx_seq_case(bufsz, st, [c2], cutsfor(st)), 'rset')
+                    # (2) completed, then the next one
+                    st = bdat_cmds(c1, True) + t2
+                    add(bufsz, rx_seq_case(bufsz, st, [c1, c2], cutsfor(st)), 'completed')
+                    # (3) failed (message too big), reset, next one small enough
+                    if len(d1) > len(d2):
+                        st = bdat_cmds(c1, False) + b'BDAT 0 LAST\r\n' + b'RSET\r\n' + t2
+                        add(bufsz, rx_seq_case(bufsz, st, [c2], cutsfor(st), maxbytes=len(d1) - 1), 'too-big-then-rset')
+                    # (4) a syntax error inside the first transfer does not end it; both are queued
+                    k = rng.randrange(0, len(c1) + 1)
+                    st = bdat_cmds(c1[:k], False) + rng.choice([b'BDAT x\r\n', b'BDAT 1 LAS\r\n', b'BDAT\r\n']) + bdat_cmds(c1[k:] + [b''], True) + t2
+                    add(bufsz, rx_seq_case(bufsz, st, [c1 + [b''], c2], cutsfor(st)), 'syntax-error-inside')
+                    # (5) queue failure in the middle (write limit hit by the first only), reset, next one
+                    if len(d1) >= 2 and len(d2) < len(d1) - 1 and b'\r' not in d1 and b'\r' not in d2 and all(len(c) < bufsz for c in c1):
+                        st = bdat_cmds(c1, False) + b'RSET\r\n' + t2
+                        add(bufsz, rx_seq_case(bufsz, st, [c2], cutsfor(st), faults='wlim=%d' % (len(d1) - 1)), 'write-failed-then-rset')
+        # three transactions, CR pending at every kind of end
+        for _ in range(150 if quick else 1500):
+            txs, st, done = [], b'', []
+            for _t in range(3):
+                n = rng.randrange(0, 9)
+                d = bytes(rng.choice(b'a\r\r\n') for _ in range(n))
+                pts = sorted(rng.randrange(0, n + 1) for _ in range(rng.randrange(0, 3)))
+                ch = [d[a:b] for a, b in zip([0] + pts, pts + [n])]
+                mode = rng.randrange(3)
+                if mode == 0:
+                    st += NEWTX + bdat_cmds(ch, True); done.append(ch)
+                elif mode == 1:
+                    st += NEWTX + bdat_cmds(ch, False) + b'RSET\r\n'
+                else:
+                    st += NEWTX + bdat_cmds(ch, False) + b'BDAT 0 LAST\r\n'; done.append(ch + [b''])
+            # the harness starts behind RCPT: the first NEWTX is answered "bad sequence" for MAIL and accepted for RCPT
+            st = st[len(b'MAIL FROM:<>\r\n'):]
+            add(bufsz, rx_seq_case(bufsz, st, done, cutsfor(st)), 'three-transactions')
+    return by
+
+
 def split(data, parts):
     out, p = [], 0
     for n in parts:
@@ -451,6 +532,8 @@ def run(ctx):
                               nontrivial=lambda c, o: True,
                               corr_name='model QsmtpModel.Bdat.sendBdat vs qremote/qrbdat.c:send_bdat, chunk sizes below the minimum')
     by = gen_rx(ctx, tiny, normal)
+    for b, cs in gen_rx_sequences(ctx, tiny, normal).items():
+        by.setdefault(b, []).extend(cs)
     for c in corpus:
         if c.startswith('rx '):
             b = int(c.split()[1])
